@@ -51,7 +51,7 @@ Proof.
   rewrite (IH Hi). apply orb_true_r.
 Qed.
 
-Lemma held_unique : forall h m i j, NoDup (map fst h) -> In (m, i) h -> In (m, j) h -> i = j.
+Lemma held_unique : forall (h : list (mid * nat)) m i j, NoDup (map fst h) -> In (m, i) h -> In (m, j) h -> i = j.
 Proof.
   intros h m i j. induction h as [| [m' i'] t IH]; cbn [map fst In]; [tauto |].
   intros Hnd [H1 | H1] [H2 | H2]; inversion Hnd; subst.
